@@ -34,8 +34,51 @@ QUICK = {
 }
 
 
-def menu(tier, t):
-    return (QUICK if tier == 'quick' else FULL)[t]
+# compile-time guises (operands as literals / through CONST names) in the
+# quick tier: zero, both signs, a fraction / tie and one boundary per type
+LITQ = {
+    INTEGER: ['0', '7', '-2', '32767'],
+    LONG: ['0', '-7', '32768'],
+    SINGLE: ['0', '-2.5', '0.5'],
+    DOUBLE: ['0', '-1.5', '0.1'],
+    STRING: ['', 'a', 'b', 'ab', 'A'],
+}
+
+
+def inexact_single(t, val):
+    """a SINGLE value whose decimal spelling is not a binary32 number: the
+    literal denotes the rounded value, so compile-time evaluation must round it too"""
+    if t != SINGLE:
+        return False
+    x = pyval(t, val)
+    return V.to_single(x) != x
+
+
+def menu(tier, t, form='var'):
+    if tier == 'quick':
+        return (QUICK if form == 'var' else LITQ)[t]
+    # thorough: all values as variables and literals, the quick values through CONST names
+    return (QUICK if form == 'const' else FULL)[t]
+
+
+CONST_LETTER = {INTEGER: 'i', LONG: 'l', SINGLE: 's', DOUBLE: 'd', STRING: 't'}
+
+
+def const_name(t, side, idx):
+    return 'k' + CONST_LETTER[t] + side + str(idx)
+
+
+def const_decls(tier, t, side):
+    """CONST declarations (no suffix: the constant takes the type of its
+    expression) for the whole menu of type t -> ([Const], {value: name})"""
+    decls, names = [], {}
+    for i, v in enumerate(menu(tier, t, 'const')):
+        e = lit_expr(t, v)
+        if e is None:
+            continue
+        names[v] = const_name(t, side, i)
+        decls.append(A.Const(names[v], e))
+    return decls, names
 
 
 def lit_text(t, mag):
@@ -103,7 +146,7 @@ def operand(t, val, form, name):
 
 def f1_descs(tier):
     out = []
-    forms = ['var'] if tier == 'quick' else ['var', 'lit']
+    forms = ['var', 'lit', 'const']
     for form in forms:
         for op in A.BIN_OPS:
             for lt, rt in itertools.product(NUM, NUM):
@@ -116,10 +159,21 @@ def f1_descs(tier):
 def build_f1(d):
     _, tier, op, lt, rt, form = d
     items = []
-    for lv in menu(tier, lt):
-        for rv in menu(tier, rt):
-            lo = operand(lt, lv, form, 'a')
-            ro = operand(rt, rv, form, 'b')
+    pre = []
+    if form == 'const':
+        da, na = const_decls(tier, lt, 'a')
+        db, nb = const_decls(tier, rt, 'b')
+        pre = da + db
+    for lv in menu(tier, lt, form):
+        for rv in menu(tier, rt, form):
+            if form == 'const':
+                if lv not in na or rv not in nb:
+                    continue
+                lo = ([], A.Var(na[lv]))
+                ro = ([], A.Var(nb[rv]))
+            else:
+                lo = operand(lt, lv, form, 'a')
+                ro = operand(rt, rv, form, 'b')
             if lo is None or ro is None:
                 continue
             e = A.Bin(op, lo[1], ro[1])
@@ -130,8 +184,10 @@ def build_f1(d):
                     'lclass': value_class(lt, pyval(lt, lv)),
                     'rclass': value_class(rt, pyval(rt, rv)),
                     'key': f'{lv} {op} {rv}'}
+            if form != 'var' and (inexact_single(lt, lv) or inexact_single(rt, rv)):
+                feat['inexact_single_literal'] = True
             items.append(Item(stmts, feat, size=len(lv) + len(rv)))
-    return Case('F1', items)
+    return Case('F1', items, pre=pre)
 
 
 # ---------------------------------------------------------------------------
@@ -258,7 +314,7 @@ def _builtin_menu(tier):
 
 def f2_descs(tier):
     out = []
-    forms = ['var', 'lit']
+    forms = ['var', 'lit', 'const']
     for form in forms:
         for op in ('-', '+', 'NOT'):
             for t in NUM:
@@ -276,14 +332,22 @@ def f2_descs(tier):
 def build_f2u(d):
     _, tier, op, t, form = d
     items = []
-    for v in FULL[t]:
-        o = operand(t, v, form, 'a')
+    pre = []
+    for i, v in enumerate(FULL[t]):
+        if form == 'const':
+            e = lit_expr(t, v)
+            if e is None:
+                continue
+            pre.append(A.Const(const_name(t, 'u', i), e))
+            o = ([], A.Var(const_name(t, 'u', i)))
+        else:
+            o = operand(t, v, form, 'a')
         if o is None:
             continue
         feat = {'construct': 'unop', 'op': op, 'lt': t, 'form': form,
                 'lclass': value_class(t, pyval(t, v)), 'key': f'{op} {v}'}
         items.append(Item(o[0] + [A.Print([A.Un(op, o[1])])], feat, size=len(v)))
-    return Case('F2', items)
+    return Case('F2', items, pre=pre)
 
 
 def build_f2b(d):
